@@ -7,7 +7,7 @@ from typing import Any, Dict, List, Optional, Tuple
 from ..interp import Interp
 from ..model import NotConst
 from ..report import AnalysisError, Ctx
-from ..values import Const, ListV, NewNode, NodeV, ObjV, PSlice, PyList, RefV, Sym, AbsList
+from ..values import NONE, Const, ListV, NewNode, NodeV, ObjV, PSlice, PyList, RefV, Sym, AbsList
 from . import oracles as O
 from .common import exception_fields, grammar_module, list_source_order
 
@@ -116,13 +116,32 @@ def run(ctx: Ctx, env):
         for n in range(0, maxcount + 1):
             n_points += 1
 
-            def setup(it, ns=ns, nm=nm, n=n):
-                selfv = ObjV(ci.qual, {}, "parser")
+            prod = _call_production(g, n)
+            if prod is None:
+                raise AnalysisError(f"no positional function-call production for {n} argument(s)", gm.rel)
+
+            def setup(it, ns=ns, nm=nm, n=n, prod=prod):
+                # the call is evaluated through the grammar action of the production that parses it (not through a helper
+                # whose signature the action is free to choose)
+                from ..values import PSlice
+                selfv = ObjV(pci.qual, {}, "parser")
                 func = NewNode("Identifier", {"name": Const(nm), "namespace": Const(tuple(ns))}, "grid")
                 args = PyList([NodeV(f"arg{i}", env.kindflow.expr_kinds) for i in range(n)])
                 args.created_in = "grid"
                 it._grid = (func, args)
-                return ci.module, fn, [selfv, func, args], {}, ci.qual
+                vals = []
+                for sym in prod.syms:
+                    if sym == "ODATA_IDENTIFIER":
+                        vals.append(func)
+                    elif sym == "common_expr":
+                        vals.append(args.items[0])
+                    elif sym == "list_expr":
+                        vals.append(NewNode("List", {"val": args}, "grid"))
+                    elif sym == "BWS":
+                        vals.append(NONE)
+                    else:
+                        vals.append(Const(sym.strip("'\"")))
+                return pci.module, prod.func, [selfv, PSlice(prod, vals)], {}, pci.qual
 
             res = interp.explore(setup)
             key = f"{full}|{n}"
@@ -264,7 +283,8 @@ def _classify(env, interp, out, full: str, n: int):
         if isinstance(v, NewNode) and v.cls == "Call":
             func, args = interp._grid
             a = v.fields.get("args")
-            same_args = a is args or (isinstance(a, PyList) and [id(i) for i in a.items] == [id(i) for i in args.items])
+            same_args = a is args or (isinstance(a, PyList) and not getattr(a, "loop_parts", None) and
+                                      [id(i) for i in a.items] == [id(i) for i in args.items])
             if v.fields.get("func") is func and same_args:
                 return "call", {}
             return "call-altered", {"func": repr(v.fields.get("func")), "args": repr(a)[:80]}
@@ -293,4 +313,20 @@ def _find_call_helper(env):
         fn = pci.methods[name]
         if any(isinstance(x, ast.Attribute) and x.attr in ("Call",) for x in ast.walk(fn)):
             return pci, fn
+    return None
+
+
+def _call_production(g, n: int):
+    """The production that parses a positional call with n arguments: NAME ( ), NAME ( expr ) or NAME list_expr."""
+    for p in g.productions:
+        syms = [x for x in p.syms if x != "BWS"]
+        if not syms or syms[0] != "ODATA_IDENTIFIER":
+            continue
+        rest = syms[1:]
+        if n == 0 and [x.strip("'\"") for x in rest] == ["(", ")"]:
+            return p
+        if n == 1 and [x.strip("'\"") for x in rest] == ["(", "common_expr", ")"]:
+            return p
+        if n >= 2 and rest == ["list_expr"]:
+            return p
     return None
